@@ -22,8 +22,11 @@
       raised it and [ExpressionAstNode.to_representation()], which the model does not have); for
       [.text] without table prefix and suffix only (the message embeds the default [repr] of the
       TextNode: a memory address).
-    - NodeErrors raised during code generation ("Opcode operand must not be code",
-      "... is not a code block (...)") reach [aresult] as [AExc ENode None]: no site, no report.
+    - The NodeError generate_code_lookup raises during code generation ("... is not a code block
+      (...)") reaches [aresult] with the file_info of the [{{x}}] statement ([code_gen_site],
+      Model/Assemble.v): the report has its suffix (file, line, quoted line); the message itself is not
+      rebuilt ([RepNode None]).  "Opcode operand must not be code" still reaches [aresult] without
+      site.
     - A ParserSyntaxError on a token WITHOUT position (the parser's synthetic EOF past the end of the
       token list): [trace()] is None, so [parse_as_ast] returns error = None and an empty node
       list — the string API then reports success ([RepSilent]).  No input reaching this was
